@@ -528,3 +528,125 @@ package gldap
 //@   ensures  muxFree(m) && m.routes == old(m.routes)
 //@   panics false
 //@   tags C16 C03
+
+// ==== server / connection life cycle (C05-C13, C17, C18) =====================================
+// Ghost state (DESIGN §4 T-LIFE, T-WG, T-TRACE). All ghosts are arrays indexed by a
+// reference or an id; scalars live at index 0.
+//@ ghost listening Bool
+//@ ghost lclosed Bool
+//@ ghost cclosed Int
+//@ ghost onclose Int
+//@ ghost wgcnt Int
+//@ ghost waited Bool
+//@ ghost nread Int
+//@ ghost lastunbind Bool
+//@ ghost tlspending Bool
+//@ ghost role Int
+//@ ghost maxid Int
+//@ ghost ncalls Int
+//@ ghost lastfn Int
+//@ ghost nframes Int
+//@ ghost tlscfg Int
+//@ ghost cancelled Bool
+
+// ---- trusted contracts of net / tls / sync used by the life-cycle properties (A-NET, A-TLS, A-SYNC)
+//@ extern net.Listen
+//@   params network string, address string
+//@   results l net.Listener, err error
+//@   ensures (err == nil) == !isNilIface(l)
+//@   ensures err == nil ==> iref(l) != 0
+//@   sets G_listening[iref(l)] = true when err == nil
+//@   sets G_lclosed[iref(l)] = false when err == nil
+//@   sets G_tlscfg[iref(l)] = 0 when err == nil
+//@   panics false
+//@ extern crypto/tls.NewListener
+//@   params inner net.Listener, config *tls.Config
+//@   results l net.Listener
+//@   ensures !isNilIface(l) && iref(l) != 0
+//@   sets G_listening[iref(l)] = G_listening[iref(inner)]
+//@   sets G_lclosed[iref(l)] = G_lclosed[iref(inner)]
+//@   sets G_tlscfg[iref(l)] = config
+//@   panics false
+//@ extern iface:net.Listener.Addr
+//@   params l net.Listener
+//@   results a net.Addr
+//@   panics false
+//@ extern iface:net.Listener.Accept
+//@   params l net.Listener
+//@   results c net.Conn, err error
+//@   ensures (err == nil) == !isNilIface(c)
+//@   ensures err == nil ==> iref(c) != 0 && G_cclosed[iref(c)] == 0 && G_tlscfg[iref(c)] == G_tlscfg[iref(l)]
+//@   panics false
+//@ extern iface:net.Listener.Close
+//@   params l net.Listener
+//@   results err error
+//@   sets G_lclosed[iref(l)] = true
+//@   sets G_listening[iref(l)] = false
+//@   panics false
+//@ extern iface:net.Conn.Close
+//@   params c net.Conn
+//@   results err error
+//@   sets G_cclosed[iref(c)] = G_cclosed[iref(c)] + 1
+//@   panics false
+//@ extern iface:net.Conn.SetReadDeadline
+//@   params c net.Conn, t time.Time
+//@   results err error
+//@   panics false
+//@ extern iface:net.Conn.SetWriteDeadline
+//@   params c net.Conn, t time.Time
+//@   results err error
+//@   panics false
+
+//@ lockinv gldap.Server.mu : this.listenerReady ==> !isNilIface(this.listener) && G_listening[iref(this.listener)]
+//@ pure srvOK(s *Server) bool = s != nil && !isNilIface(s.logger) && !isNilIface(s.shutdownCtx) && s.router != nil
+
+//@ func (*gldap.Server).Ready
+//@   requires s != nil && !held(&s.mu)
+//@   ensures  result ==> !isNilIface(s.listener) && G_listening[iref(s.listener)]
+//@   ensures  !held(&s.mu)
+//@   panics false
+//@   tags C17
+
+//@ func gldap.validateAddrPort
+//@   panics false
+//@   modifies nothing
+//@   trusted
+//@ func gldap.newConn
+//@   requires connID > G_maxid[0]
+//@   ensures  err == nil ==> result0 != nil && fresh(result0) && result0.connID == connID && connID != 0 && result0.netConn == netConn && result0.router == router && !isNilIface(result0.logger)
+//@   ensures  err == nil ==> result0.reader != nil && result0.writer != nil && !held(&result0.mu) && !held(&result0.writerMu)
+//@   sets     G_maxid[0] = connID when err == nil
+//@   panics false
+//@   modifies nothing
+//@   tags C09
+
+//@ func (*gldap.Server).Run$1
+//@   panics any
+//@   tags C08
+//@ func (*gldap.Server).Run
+//@   requires srvOK(s) && !held(&s.mu) && G_maxid[0] == 0 && G_wgcnt[&s.connWg] >= 0
+//@   ensures  !held(&s.mu)
+//@   panics false
+//@   tags C17 C09
+//@ loop 1
+//@   invariant connID == G_maxid[0] && connID >= 0
+//@   invariant srvOK(s)
+//@   invariant !held(&s.mu)
+//@   invariant !isNilIface(s.listener)
+//@   invariant G_wgcnt[&s.connWg] >= 0
+
+//@ extern (*sync.WaitGroup).Add
+//@   params wg *sync.WaitGroup, delta int
+//@   requires wg != nil && G_wgcnt[wg] + delta >= 0
+//@   sets G_wgcnt[wg] = G_wgcnt[wg] + delta
+//@   panics false
+//@ extern (*sync.WaitGroup).Done
+//@   params wg *sync.WaitGroup
+//@   requires wg != nil && G_wgcnt[wg] > 0
+//@   sets G_wgcnt[wg] = G_wgcnt[wg] - 1
+//@   panics false
+//@ extern (*sync.WaitGroup).Wait
+//@   params wg *sync.WaitGroup
+//@   requires wg != nil
+//@   sets G_waited[wg] = true
+//@   panics false
